@@ -94,7 +94,9 @@ func ResourceType(w *World, id ResID) (reflect.Type, bool) {
 //
 // See also [AddResource].
 func GetResource[T any](w *World) *T {
-	return w.resources.Get(ResourceID[T](w)).(*T)
+	// Comma-ok assertion: an absent resource is a nil interface, for which nil is returned.
+	res, _ := w.resources.Get(ResourceID[T](w)).(*T)
+	return res
 }
 
 // AddResource adds a resource to the world.
